@@ -254,6 +254,41 @@ func c20Check(cs c20Case) [][2]string {
 			out = append(out, why)
 		}
 	}
+	// the same renderings with a transition to highlight (what a debugger passes): for every pair of nodes joined by a
+	// branch (the first few) and for a pair that is not - highlighting changes colours, not the graph
+	{
+		pairs := [][2]string{{"no-such-node", "nor-this"}}
+		seenPair := map[[2]string]bool{}
+		for _, b := range branchList {
+			if !seenPair[b] && len(pairs) < 5 {
+				seenPair[b] = true
+				pairs = append(pairs, b)
+			}
+		}
+		for _, pr := range pairs {
+			var buf bytes.Buffer
+			var derr error
+			if p, pm, where := vh.Trap(func() { derr = tools.Dot(spec, nopCloser{&buf}, pr[0], pr[1]) }); p {
+				out = append(out, [2]string{"dot-panic/highlighted/" + where, pm})
+			} else if derr != nil {
+				out = append(out, [2]string{"dot-error/highlighted", derr.Error()})
+			} else if why := dotFaithful(spec, branchList, buf.String()); why != [2]string{} {
+				out = append(out, [2]string{why[0] + "/highlighted", fmt.Sprintf("with the transition %q -> %q highlighted: %s", pr[0], pr[1], why[1])})
+			}
+			buf.Reset()
+			var merr error
+			if p, pm, where := vh.Trap(func() { merr = tools.Mermaid(spec, nopCloser{&buf}, nil, pr[0], pr[1]) }); p {
+				out = append(out, [2]string{"mermaid-panic/highlighted/" + where, pm})
+			} else if merr != nil {
+				out = append(out, [2]string{"mermaid-error/highlighted", merr.Error()})
+			} else if why := mermaidFaithful(spec, branchList, buf.String()); why != [2]string{} {
+				out = append(out, [2]string{why[0] + "/highlighted", fmt.Sprintf("with the transition %q -> %q highlighted: %s", pr[0], pr[1], why[1])})
+			}
+			if len(out) > 0 {
+				break
+			}
+		}
+	}
 	// the HTML rendering of the spec: total, one row per node, one numbered row per branch, one link per non-empty target
 	if !strings.ContainsAny(strings.Join(nodeNames(spec), ""), "<>&\"'") {
 		var buf bytes.Buffer
